@@ -7,12 +7,22 @@ pub fn validate_code(ctx: &Context, input: &DeriveInput, bytes_ident: &TokenStre
     if let Data::Enum(data) = &input.data {
         let tag_type = ctx.info.tag_type.as_ref().unwrap();
         let var_count = Index::from(data.variants.len());
+        let is_valid = if ctx.info.sized && data.variants.iter().any(|var| var.discriminant.is_some()) {
+            // A sized enum keeps the discriminants it was declared with: the tag must be one of them.
+            // (`Self` is the enum itself if it is C-like and its tag enum, that has the same discriminants, otherwise.)
+            data.variants.iter().fold(quote! { false }, |accum, var| {
+                let ident = &var.ident;
+                quote! { #accum || *tag == (Self::#ident as #tag_type) }
+            })
+        } else {
+            // Compared in `u64`: the variant count itself need not fit into the tag type (256 variants, `u8` tag).
+            quote! { (*tag as u64) < #var_count }
+        };
         quote! {
             use ::flatty::{traits::*, error::{Error, ErrorKind}};
             <#tag_type>::validate_unchecked(#bytes_ident)?;
             let tag = <#tag_type>::from_bytes_unchecked(#bytes_ident);
-            // Compared in `u64`: the variant count itself need not fit into the tag type (256 variants, `u8` tag).
-            if (*tag as u64) < #var_count {
+            if #is_valid {
                 Ok(())
             } else {
                 Err(Error {
@@ -33,9 +43,16 @@ pub fn struct_(ctx: &Context, input: &DeriveInput, local: bool) -> TokenStream {
         let tag = ctx.idents.tag.as_ref().unwrap();
         let variants = data.variants.iter().fold(quote! {}, |accum, var| {
             let ident = &var.ident;
-            quote! {
-                #accum
-                #ident,
+            // The tag of a sized enum mirrors the discriminants of the enum (an unsized one is generated from scratch).
+            match (&var.discriminant, ctx.info.sized) {
+                (Some((_, value)), true) => quote! {
+                    #accum
+                    #ident = #value,
+                },
+                _ => quote! {
+                    #accum
+                    #ident,
+                },
             }
         });
         let bytes_ident = quote! {__flatty_bytes};
